@@ -87,14 +87,35 @@ def _memo_value_depends(f, attr):
     import ast as _ast
     from sa.algebra import dotted
     params = set(f.params()) - {'self', 'cls'}
+    # locals computed from the arguments or from the object's state carry them along
+    carry = set(params)
+    changed = True
+
+    def tainted(expr):
+        for x in _ast.walk(expr):
+            if isinstance(x, _ast.Attribute) and isinstance(x.value, _ast.Name) and x.value.id in ('self', 'cls'):
+                return True
+            if isinstance(x, _ast.Name) and x.id in carry:
+                return True
+        return False
+    while changed:
+        changed = False
+        for n in _ast.walk(f.node):
+            tgs = None
+            if isinstance(n, _ast.Assign) and tainted(n.value):
+                tgs = n.targets
+            elif isinstance(n, _ast.For) and tainted(n.iter):
+                tgs = [n.target]
+            for t in tgs or []:
+                for x in _ast.walk(t):
+                    if isinstance(x, _ast.Name) and isinstance(x.ctx, _ast.Store) and x.id not in carry:
+                        carry.add(x.id)
+                        changed = True
     for n in _ast.walk(f.node):
         if isinstance(n, _ast.Assign) and any(dotted(t) == attr for t in n.targets) or \
                 isinstance(n, _ast.AugAssign) and dotted(n.target) == attr:
-            for x in _ast.walk(n.value):
-                if isinstance(x, _ast.Attribute) and isinstance(x.value, _ast.Name) and x.value.id in ('self', 'cls'):
-                    return True
-                if isinstance(x, _ast.Name) and x.id in params:
-                    return True
+            if tainted(n.value):
+                return True
         elif isinstance(n, (_ast.Assign, _ast.AugAssign)):
             tg = n.targets if isinstance(n, _ast.Assign) else [n.target]
             for t in tg:
